@@ -21,6 +21,8 @@ package json
 
 //@ global forall k in 0..256: noEscapeTable[k] == (k >= 32 && k <= 126 && k != 92 && k != 34)
 
+//@ config JSONMarshalFunc != nil
+
 //@ var JSONMarshalFunc(v) res, err
 //@   modifies nothing
 //@   ensures err == nil ==> wholevalue(res)
@@ -133,6 +135,7 @@ package json
 //@   flag tags !binary_log
 //@   requires valueok(dst)
 //@   ensures lex(res) == 0 && mode(res) == OBJ_FIRST && stk(res) == pushstk(mode(dst), stk(dst)) && prefix(res, dst) && len(res) == len(dst) + 1 && res[len(res)-1] == '{'
+//@   ensures [C05] base(res) == base(dst) || fresh(res)
 
 //@ func (Encoder).AppendEndMarker(e, dst) res
 //@   props C01 C03
